@@ -135,6 +135,11 @@ def schemata():
         S.append((part, ':- not &tel { q(2) ; a : q(1) }.', ':- not &tel { q(2) & (~ q(1) | a) }.'))
         S.append((part, 's :- not &tel { > a : q(1), q(2) ; < q(1) ; a : not q(2) }.', 's :- not &tel { (~ (q(1) & q(2)) | > a) & (< q(1)) & (q(2) | a) }.'))
         S.append((part, ':- &tel { q(X) : d(X), not a ; a }.', ':- &tel { (a | q(1)) & (a | q(2)) & a }.'))
+    # &del elements with conditions that are not facts, alone and next to an unconditioned element
+    for part in ('always', 'initial', 'dynamic'):
+        S.append((part, ':- not &del { a .>? q(2) : q(1) }.', ':- q(1), not &del { a .>? q(2) }.'))
+        S.append((part, ':- not &del { &true .>* a : not q(1) ; ? q(2) .>? &true }.', ':- not q(1), not &del { &true .>* a }.\n:- not &del { ? q(2) .>? &true }.'))
+        S.append((part, 's :- not &del { ? q(X) .>? a : d(X), q(2) }.', 's :- q(2), not &del { ? q(1) .>? a }.\ns :- q(2), not &del { ? q(2) .>? a }.'))
     # classical negation inside formulas
     for part in ('always', 'initial', 'dynamic'):
         rule(part, '&tel { -p(X) | > r(X) } :- q(X).')
